@@ -21,8 +21,10 @@ from vf import core
 TYPES = ("http", "ws", "tcp", "udp", "dns")
 FILTER_EXPR = {"none": None, "http": "~http", "tcp": "~tcp", "udp": "~udp", "dns": "~dns", "websocket": "~websocket",
                "resp": "~s", "noresp": "~q", "err": "~e", "marked": "~marked", "unmarked": "!~marked"}
-# VERIF_C39_ROTATE_FIXED=1 selects the model variant of the repair proposed in findings_proposed/C39.md
-OPEN_FIRST = os.environ.get("VERIF_C39_ROTATE_FIXED", "") == "1"
+# The model describes the code since /repo commit e93d632de (maybe_rotate_to_new_file opens the new file first and
+# only then replaces the stream).  VERIF_C39_ROTATE_OLD=1 selects the model variant of the code before it (a refused
+# option change left the addon without a stream: findings_proposed/C39.md, mutants/C39/M9_*.diff).
+OPEN_FIRST = os.environ.get("VERIF_C39_ROTATE_OLD", "") != "1"
 FOREIGN = b"15:2:id;7:foreign;}"  # a tnetstring dict {"id": "foreign"}: what is in every file before the scenario
 
 
@@ -315,7 +317,7 @@ QUICK_MODELS = [
     {"FlowTypes": ("http", "ws"), "Marked": frozenset({1}), "Paths": frozenset({1}), "Filters": frozenset({"none", "resp"}), "MaxCfg": 3, "BadPaths": False, "OpenFirst": OPEN_FIRST},
     {"FlowTypes": ("tcp", "dns"), "Marked": frozenset({2}), "Paths": frozenset({1}), "Filters": frozenset({"none", "err", "noresp"}), "MaxCfg": 3, "BadPaths": False, "OpenFirst": OPEN_FIRST},
 ]
-# the environment may also try an unopenable path (SetFileBad); kept apart because of findings_proposed/C39.md
+# the environment may also try an unopenable path (SetFileBad): a refused option change must change nothing
 BAD_QUICK = {"FlowTypes": ("http",), "Marked": frozenset(), "Paths": frozenset({1, 2}), "Filters": frozenset({"none", "err"}),
              "MaxCfg": 3, "BadPaths": True, "OpenFirst": OPEN_FIRST}
 BAD_THOROUGH = {"FlowTypes": ("http", "dns"), "Marked": frozenset({1}), "Paths": frozenset({1, 2}),
